@@ -473,8 +473,13 @@ class MailDriver:
         return (await self.run("Move" if move else "Copy", s, text, kind=verb, uid=uid,
                                set=elems, mbox=mb))[0]
 
-    async def status(self, s, mb):
-        text = f"STATUS {wire.quote(mb.encode()).decode()} (MESSAGES UIDNEXT UIDVALIDITY UNSEEN RECENT)"
+    async def status(self, s, mb, via_list=False):
+        """STATUS, or the same aggregates through LIST ... RETURN (STATUS (...)) of RFC 5819."""
+        q = wire.quote(mb.encode()).decode()
+        if via_list:
+            text = f'LIST "" {q} RETURN (STATUS (MESSAGES UIDNEXT UIDVALIDITY UNSEEN RECENT))'
+        else:
+            text = f"STATUS {q} (MESSAGES UIDNEXT UIDVALIDITY UNSEEN RECENT)"
         return (await self.run("Status", s, text, mbox=mb))[0]
 
     async def create(self, s, mb):
